@@ -155,6 +155,32 @@ pub struct Case {
     pub trailing_empty: usize,
     pub index: u16,
     pub muts: Vec<Mutation>,
+    /// `Some`: instead of a materialised tree, a *virtual* tree of the given height (up to beyond
+    /// the supported maximum of 32) defined by one leaf, its index and its sibling path
+    #[serde(default)]
+    pub deep: Option<Deep>,
+}
+
+/// A leaf, an index below 2^height and `height` sibling hashes define the root of a virtual
+/// tree for which (leaf, index, root, siblings) is, by construction, the honest proof tuple.
+#[derive(Clone, Debug, Serialize, Deserialize)]
+pub struct Deep {
+    pub height: u8,
+    pub index_bits: u64,
+    /// all siblings to the right of the path are canonical empty subtrees (the leaf is the last)
+    pub last: bool,
+    pub muts: Vec<DeepMut>,
+}
+
+#[derive(Clone, Debug, Serialize, Deserialize)]
+pub enum DeepMut {
+    Extend(u8, ProofFill),
+    Truncate(u8),
+    /// index + k * 2^height
+    AliasUp(u8),
+    FlipBit(u8),
+    ElemRandom(u8, u64),
+    LeafOther(u64),
 }
 
 fn leaf_bytes(seed: u64, i: usize) -> Vec<u8> {
@@ -216,6 +242,129 @@ fn mutation_strategy() -> BoxedStrategy<Mutation> {
     .boxed()
 }
 
+fn deep_strategy() -> BoxedStrategy<Deep> {
+    let fill = prop_oneof![Just(ProofFill::CanonicalEmpty), any::<u64>().prop_map(ProofFill::Random), Just(ProofFill::DupLast)];
+    let m = prop_oneof![
+        3 => ((1u8..=4), fill).prop_map(|(k, f)| DeepMut::Extend(k, f)),
+        1 => (1u8..=3).prop_map(DeepMut::Truncate),
+        2 => (1u8..=3).prop_map(DeepMut::AliasUp),
+        1 => any::<u8>().prop_map(DeepMut::FlipBit),
+        1 => (any::<u8>(), any::<u64>()).prop_map(|(p, s)| DeepMut::ElemRandom(p, s)),
+        1 => any::<u64>().prop_map(DeepMut::LeafOther),
+    ];
+    (
+        prop_oneof![2 => 0u8..=12, 2 => 13u8..=31, 4 => Just(32u8), 1 => 33u8..=40],
+        prop_oneof![1 => Just(0u64), 1 => Just(u64::MAX), 3 => any::<u64>()],
+        any::<bool>(),
+        prop::collection::vec(m, 0..=2),
+    )
+        .prop_map(|(height, index_bits, last, muts)| Deep { height, index_bits, last, muts })
+        .boxed()
+}
+
+/// Virtual trees: heights up to (and beyond) the supported maximum without materialising leaves.
+fn run_deep(case: &Case, d: &Deep) -> Outcome {
+    use alpenglow::crypto::merkle::{MAX_MERKLE_TREE_HEIGHT, PlainMerkleTree};
+    let mut out = Outcome::default();
+    let h = d.height as usize;
+    out.label(format!("deep-height={}", if h == 32 { "32".to_string() } else if h > 32 { ">32".to_string() } else { "<32".to_string() }));
+    let index: u128 = if h >= 64 { d.index_bits as u128 } else { (d.index_bits as u128) & ((1u128 << h) - 1) };
+    let index = index as u64;
+    let leaf = leaf_bytes(case.seed, 3);
+    // siblings: right-hand ones are empty subtrees when `last`, everything else pseudo-random
+    let sibs: Vec<Hash> = (0..h)
+        .map(|j| {
+            let right = (index >> j) & 1 == 0;
+            if right && d.last { empty_root(j) } else { rand_hash(case.seed ^ ((j as u64) << 8) ^ 0xD33B) }
+        })
+        .collect();
+    let mut node = ref_leaf(&leaf);
+    for (j, sib) in sibs.iter().enumerate() {
+        node = if (index >> j) & 1 == 0 { ref_pair(&node, sib) } else { ref_pair(sib, &node) };
+    }
+    let root = node;
+    // the leaf is the last non-empty one iff every right-hand sibling is an empty subtree
+    let is_last = (0..h).all(|j| (index >> j) & 1 == 1 || sibs[j] == empty_root(j));
+    let supported = h <= MAX_MERKLE_TREE_HEIGHT;
+
+    let mut m_leaf = leaf.clone();
+    let mut m_index: u128 = index as u128;
+    let mut m_proof = sibs.clone();
+    let mut changed = false;
+    for m in &d.muts {
+        match m {
+            DeepMut::Extend(k, f) => {
+                for _ in 0..*k {
+                    push_fill(&mut m_proof, f);
+                }
+                changed = true;
+                out.label("deep-mut=extend");
+            }
+            DeepMut::Truncate(k) => {
+                let l = m_proof.len().saturating_sub(*k as usize);
+                changed |= l != m_proof.len();
+                m_proof.truncate(l);
+                out.label("deep-mut=truncate");
+            }
+            DeepMut::AliasUp(k) => {
+                if h < 64 {
+                    m_index += (*k as u128) << h;
+                    changed = true;
+                }
+                out.label("deep-mut=alias-up");
+            }
+            DeepMut::FlipBit(b) => {
+                if h > 0 {
+                    m_index ^= 1u128 << (*b as usize % h);
+                    changed = true;
+                }
+                out.label("deep-mut=flip-bit");
+            }
+            DeepMut::ElemRandom(p, s) => {
+                if !m_proof.is_empty() {
+                    let i = *p as usize % m_proof.len();
+                    m_proof[i] = rand_hash(*s);
+                    changed = true;
+                }
+                out.label("deep-mut=elem");
+            }
+            DeepMut::LeafOther(s) => {
+                m_leaf = leaf_bytes(*s, 78);
+                changed = true;
+                out.label("deep-mut=leaf");
+            }
+        }
+    }
+    if m_index > usize::MAX as u128 {
+        return out;
+    }
+    // several mutations may cancel out (extend then truncate): what counts is the offered tuple
+    let changed = changed && (m_leaf != leaf || m_index != index as u128 || m_proof != sibs);
+    let m_index = m_index as usize;
+    out.nontrivial = changed || h >= 30;
+    let (truth, truth_last) = if changed { (false, false) } else { (supported, supported && is_last) };
+    let r = catch(|| (PlainMerkleTree::check_proof(&m_leaf, m_index, &root, &m_proof), PlainMerkleTree::check_proof_last(&m_leaf, m_index, &root, &m_proof)));
+    match r {
+        Err(p) => out.violate(format!("C15/deep/panic/{}/{}", panic_site(&p), panic_msg(&p)), format!("{d:?}: {p}")),
+        Ok((a, b)) => {
+            out.checks += 2;
+            if a != truth {
+                out.violate(
+                    if a { "C15/check_proof/accepts/deep-altered" } else { "C15/check_proof/rejects-honest/deep" },
+                    format!("virtual tree of height {h}, index {index}, last={is_last}, mutations {:?}: check_proof = {a}, expected {truth}", d.muts),
+                );
+            }
+            if b != truth_last {
+                out.violate(
+                    if b { "C15/check_proof_last/accepts/deep-altered" } else { "C15/check_proof_last/rejects-honest/deep" },
+                    format!("virtual tree of height {h}, index {index}, last={is_last}, mutations {:?}: check_proof_last = {b}, expected {truth_last}", d.muts),
+                );
+            }
+        }
+    }
+    out
+}
+
 pub struct C15;
 
 impl Property for C15 {
@@ -228,10 +377,14 @@ impl Property for C15 {
         tier.pick(40_000, 2_000_000)
     }
     fn rule(&self) -> String {
-        "cases: a tree (plain / slice / double-Merkle typing) with 1..=1024 leaves or 2^p-1,2^p,2^p+1 for p<=12, \
+        "cases: (a) a tree (plain / slice / double-Merkle typing) with 1..=1024 leaves or 2^p-1,2^p,2^p+1 for p<=12, \
          optional explicit empty leaves, one honest proof for a generated index, then 0..=3 mutations of \
          (leaf, claimed index, root, proof element, proof length, path of another leaf). Oracle: independent \
-         reference tree over the padded leaf list decides the semantic truth of check_proof / check_proof_last. \
+         reference tree over the padded leaf list decides the semantic truth of check_proof / check_proof_last; (b) in 12 % of the cases a \
+         virtual tree of height 0..=40 (32, the supported maximum, emphasised) defined by a leaf, an index and a \
+         sibling path (right-hand siblings canonical empty subtrees or not), with the honest tuple extended, \
+         truncated, index-aliased by 2^height, bit-flipped or element/leaf-altered: honest tuples verify iff \
+         height <= 32 (last-leaf variant iff additionally every right-hand sibling is empty), altered ones never. \
          Non-trivial: at least one mutation was applied (the tuple offered to the verifier differs from what the \
          tree produced or targets a different position); distinct = distinct case fingerprint."
             .into()
@@ -251,8 +404,9 @@ impl Property for C15 {
             prop_oneof![3 => Just(0usize), 1 => 1usize..=3],
             any::<u16>(),
             prop::collection::vec(mutation_strategy(), 0..=3),
+            prop::option::weighted(0.12, deep_strategy()),
         )
-            .prop_map(|(kind, n, seed, empties, trailing_empty, index, muts)| Case {
+            .prop_map(|(kind, n, seed, empties, trailing_empty, index, muts, deep)| Case {
                 kind,
                 n,
                 seed,
@@ -260,6 +414,7 @@ impl Property for C15 {
                 trailing_empty,
                 index,
                 muts,
+                deep,
             })
             .boxed()
     }
@@ -274,6 +429,7 @@ impl Property for C15 {
                 trailing_empty: 0,
                 index: 0x6800,
                 muts: vec![Mutation::Index(IndexMut::AliasUp(1))],
+                deep: None,
             },
             Case {
                 kind: TreeKind::Double,
@@ -283,10 +439,14 @@ impl Property for C15 {
                 trailing_empty: 0,
                 index: 0xffff,
                 muts: vec![Mutation::Index(IndexMut::AliasUp(1))],
+                deep: None,
             },
         ]
     }
     fn run(&self, case: &Case) -> Outcome {
+        if let Some(d) = &case.deep {
+            return run_deep(case, d);
+        }
         match case.kind {
             TreeKind::Plain => run_typed::<Vec<u8>, Hash, Vec<Hash>>(case, |b| b.to_vec(), |d| Some(d.to_vec())),
             TreeKind::Slice => run_typed::<Vec<u8>, SliceRoot, SliceProof>(case, |b| b.to_vec(), |d| Some(d.to_vec())),
